@@ -693,6 +693,7 @@ class SDMXG1Settings(SDMXGSettings):
         """
         super(SDMXG1Settings, self).__init__(pows, nd)
         self._n1 = n1
+        assert self._n1 <= len(self.pows)
 
     @property
     def n1terms(self):
